@@ -5,7 +5,8 @@ from pyvc.prims import same_map, all_of, any_of
 TaskU = U('Task')
 LoggerU = U('Logger')
 # attributes of opaque task objects: functions of the object
-U_ATTRS = {'Task': {'slugname': Str, 'name_for_persistence': Str, 'logger': LoggerU, 'fullname': Str}}
+U_ATTRS = {'Task': {'slugname': Str, 'name_for_persistence': Str, 'logger': LoggerU, 'fullname': Str, 'is_forced': Bool, 'has_data': Bool,
+                    'group': Str}}
 
 U_METHODS = {'Logger': {'addHandler': None, 'removeHandler': None}, 'Task': {'force': TaskU}}
 
@@ -23,7 +24,9 @@ def _new_task(ex, ref, args):
 
 
 TaskClassIface = Iface('TaskClassIface', methods={'__call__': Meth(ret=_new_task, event=True)})
-PCfgIface = Iface('PCfgIface', classes=('taskchain.chain:TaskParameterConfig',), props={'repr_name_without_namespace': Prop(Str)})
+CtxIface = Iface('CtxIface', props={'name': Prop(Str)})
+PCfgIface = Iface('PCfgIface', classes=('taskchain.chain:TaskParameterConfig',),
+                  props={'repr_name_without_namespace': Prop(Str), 'context': Prop(Abs(CtxIface, 'config.context')), 'name': Prop(Str), 'namespace': Prop(Opt(Str))})
 NCfgIface = Iface('NCfgIface', classes=('taskchain.config:Config',), props={'repr_name_without_namespace': Prop(Str)})
 ChainLogHandler = U('Handler')
 
